@@ -53,12 +53,32 @@ struct Value {
             }
             return depth;
         };
+        // an argument that starts with a bracket which closes before the argument ends holds several tokens - "[a][b]",
+        // "[a]5" -: it is read the way the inside of a bracket is, not as one sub-script reaching from its first to its last character
+        auto add = [&result](const char* s, size_t len) {
+            size_t close = len;
+            if (len > 1 && s[0] == '[') {
+                int depth = 0;
+                bool comment = false;
+                for (size_t i = 0; i < len && close == len; ++i) {
+                    if (s[i] == '\n' || s[i] == '\r') comment = false;
+                    else if (s[i] == '#') comment = true;
+                    if (!comment) depth += (s[i] == '[') - (s[i] == ']');
+                    if (depth == 0) close = i;
+                }
+            }
+            if (close + 1 < len) {
+                for (const Value& x : parse_args(s, len)) result.push_back(x);
+            } else {
+                result.emplace_back(s, len);
+            }
+        };
         for (auto& v : args) {
             size_t vlen = strlen(v);
             if (accum != "") {
                 accum += std::string(" ") + v;
                 if (bracket_depth(accum) <= 0) {
-                    result.emplace_back(accum.c_str(), accum.length());
+                    add(accum.c_str(), accum.length());
                     accum = "";
                 }
                 continue;
@@ -69,7 +89,7 @@ struct Value {
                     accum = v;
                     continue;
                 }
-                result.emplace_back(v, vlen);
+                add(v, vlen);
             }
         }
         if (accum != "") {
